@@ -139,13 +139,13 @@ Theorem nested_isolated : forall cx b h s r o h1 s1 t stk,
 Proof.
   intros cx b h s r o h1 s1 t stk Hn Hsc Hnc H Hdead Hnn Htx Hg Hrb Hdr.
   assert (HBS : body_spec C (run_body E C fault b)).
-  { intros hc sc rc lc hc' sc' tc basec Eb Hd0 Hn0 Htc Hgc Hrc Hdc.
-    apply (body_inv E savepoint_pushes rollback_to_exact C savepoints fault b [] hc sc rc lc hc' sc' tc [] basec Eb Hd0 Hn0 Hnc Htc (sub_nil _) Hsc Hgc Hrc Hdc). }
+  { intros hc sc rc lc hc' sc' tc basec Eb Hd0 Htc Hgc Hrc Hdc.
+    apply (body_inv E savepoint_pushes rollback_to_exact C savepoints fault b [] hc sc rc lc hc' sc' tc [] basec Eb Hd0 Hnc Htc (sub_nil _) Hsc Hgc Hrc Hdc). }
   destruct (nested_cx_step E savepoint_pushes rollback_to_exact C savepoints fault cx _ HBS (run_body_flags E C fault b)
-              h s r o h1 s1 t [] stk H Hdead Hnn Htx Hg Hrb Hdr)
+              h s r o h1 s1 t [] stk H Hdead Htx Hg Hrb Hdr)
     as [Eh [[t1 [local1 [l0 [Eo' [St _]]]]] | [e [_ [Eo' St]]]]]; (split; [exact Eh|]); intro Hr.
   - destruct St as (A1 & A2 & _).
-    rewrite Eo', spec_OC, Hn in A2. cbn [negb app] in A2.
+    unfold nest_of in A2. rewrite Eo', spec_OC, Hn, Hnn in A2. cbn [negb orb app] in A2.
     assert (A2' : (t, fu stk) = (t1, fu (local1 ++ stk))).
     { destruct r; [discriminate | exact A2 | exact A2]. }
     inversion A2' as [[Et Ef]].
@@ -217,6 +217,22 @@ Lemma sticky_now_ok :
   let '(o, x, s) := run_top ref_env cfg_default (fault_at (Some 2%nat)) false sticky_prog [] (init_st []) in
   x_rb (s_fl s) = false /\ x_drop (s_fl s) = false /\
   s_db s = [1; 3] /\ top_ok o (rev (s_ops s)) = true /\ usable o (rev (s_ops s)) = true.
+Proof. vm_compute. repeat split. Qed.
+
+(* non-vacuity for the per-call switch: write 1; a nested block on
+   tx.Session(&Session{DisableNestedTransaction: true}) { write 2; an ordinary nested block
+   { write 4; error } ignored; error } ignored; an ordinary nested block { write 5; error }
+   ignored; write 3; nil.  The switched-off block and the block inside it undo nothing (2 and 4
+   stay), the enclosing handle's own setting is in force again afterwards (5 is undone): exactly
+   one SAVEPOINT and one ROLLBACK TO are issued *)
+Definition nn_prog :=
+  Write 1 true (Child (Write 2 true (Child (Write 4 true (Done (RetErr 2))) false false false false (Done (RetErr 1)))) false false false true
+               (Child (Write 5 true (Done (RetErr 3))) false false false false (Write 3 false (Done RetNil)))).
+Lemma nn_witness :
+  scoped [] nn_prog = true /\ plain_prog nn_prog = true /\
+  let '(o, x, s) := run_top ref_env cfg_default (fault_at None) false nn_prog [] (init_st []) in
+  s_db s = [1; 2; 4; 3] /\ spec_final true o (rev (s_ops s)) [] = [1; 2; 4; 3] /\
+  map fst (rev (s_ops s)) = [KBegin; KStmt; KStmt; KStmt; KSave; KStmt; KRbTo; KStmt; KCommit].
 Proof. vm_compute. repeat split. Qed.
 
 (* REFUTED for a dialector that drops save-point errors (stock SQLite dialector): the nested
